@@ -102,8 +102,13 @@ func (v *VoteDB) UpdateContext(round *big.Int, roundIndex uint32) {
 	v.lock.Lock()
 	defer v.lock.Unlock()
 
-	if v.round != nil && v.round.Cmp(round) == 0 && v.roundIndex == roundIndex {
-		return
+	if v.round != nil {
+		// the context never moves backwards: after a restart the engine begins the
+		// round at index 1 again, but the votes already cast in this round at this or
+		// a later index stand
+		if c := v.round.Cmp(round); c > 0 || (c == 0 && v.roundIndex >= roundIndex) {
+			return
+		}
 	}
 
 	v.mark = make(map[VoteType]uint8)
@@ -167,6 +172,10 @@ func (v *VoteDB) ExistVoteData(voteType VoteType, round *big.Int, roundIndex uin
 }
 
 func (v *VoteDB) alreadyVoted(voteType VoteType, round *big.Int, roundIndex uint32) bool {
+	if v.round != nil && v.round.Cmp(round) > 0 {
+		// a round before the one already voted in
+		return true
+	}
 	if v.round != nil && v.round.Cmp(round) == 0 {
 		if v.roundIndex > roundIndex ||
 			(v.roundIndex == roundIndex && voteType == NextIndex && v.mark[voteType] == 2) ||
